@@ -11,7 +11,7 @@ Open Scope Z_scope.
 
 (* the behaviour of UpdateNotarizedBlock in /repo: [false] = as written (stores the old block
    back); set to [true] when the repair ([r.notarizedBlocks[i] = b]) is applied *)
-Definition nb_code_fixed : bool := false.
+Definition nb_code_fixed : bool := true.
 
 Inductive nb_opi := IAdd (i : nat) | IPropose (i : nat) | IUpdate (i : nat) | IBest | IHeaviest.
 (* outputs: ONone = nothing returned; OBlk None = nil; OBlk (Some i) = block object i *)
